@@ -38,7 +38,7 @@ INVS = ["TypeOK", "OnlyOwnBytes", "UncleanNeverReused", "OnlyUrllib3Errors", "No
 INVS_S4 = ["TypeOK", "OnlyOwnBytesButS4", "UncleanNeverReusedButS4", "OnlyUrllib3Errors", "NoDuplicateOpen",
            "NotPooledWhileHeld", "Settles"]
 ACTIONS = ["StartReq", "Checkout", "Send", "Serve", "RecvHead", "Preload", "Return", "Fail", "ReadAll", "Preloaded",
-           "Drain", "ReadBody", "StreamStep", "Release", "Close", "Ignore", "Drop", "ServerStray", "ServerEOF",
+           "Drain", "ReadBody", "StreamStep", "Abandon", "Read1", "Release", "Close", "Ignore", "Drop", "ServerStray", "ServerEOF",
            "NoAfter", "NextReq", "Finish"]
 SUBS = ["204", "304", "head", "103"]
 
@@ -85,7 +85,10 @@ def to_history(h, meta, salt) -> dict:
         sc = dict(st["sc"])
         if sc["fr"] == "bodyless":
             sc["sub"] = SUBS[(salt + i) % 4]
-        steps.append({"sc": sc, "op": st["op"]})
+        op = dict(st["op"])
+        if op["kind"] == "streamk":
+            op["how"] = c03drv.HOWS[(salt + i) % 3]
+        steps.append({"sc": sc, "op": op})
     return {"maxsize": meta["maxsize"], "retries": meta["retries"], "seg": meta["seg"], "steps": steps}
 
 
@@ -119,7 +122,7 @@ def nontrivial(trace) -> bool:
             return True
         if e["e"] == "req" and (len(e["att"]) > 1 or e["out"] != "response" or any(p["res"] == "dropped" for p in e["probes"])):
             return True
-        if e["e"] == "op" and (e["res"] != "ok" or e["op"]["kind"] in ("readk", "release", "close", "ignore")):
+        if e["e"] == "op" and (e["res"] != "ok" or e["op"]["kind"] in ("readk", "release", "close", "ignore", "streamk", "read1")):
             return True
     return False
 
@@ -262,7 +265,7 @@ def release_closes_unread() -> bool:
     """Which Model describes this tree?  One tiny calibration history: read one unit, release_conn(), let go
     of the response, next request.  As recorded in DESIGN 5 / known_findings.d the connection goes back to the
     pool as it is (Model as-is); a tree in which release_conn() discards a connection whose body is unread
-    dials again (Model with the named switch ReleaseClosesUnread).  Only selects the Model used for the
+    dials again (the Model as it is; the older behaviour is the named deviation ReleaseKeepsUnread).  Only selects the Model used for the
     expected observations (drift); the Rules verdicts do not depend on it."""
     sc = {"fr": "cl", "sub": "204", "len": 2, "cut": c03drv.NOCUT, "ka": True, "extra": "none", "after": "none", "late": 0,
           "shape": "cells"}
@@ -280,10 +283,10 @@ def plan(tier, seed, dev="NoDev"):
         for s in range(k):
             meta = dict(cls=cls, maxsize=kw.get("maxsize", 1), retries=kw.get("retries", 1), seg=kw.get("seg", "slurp"),
                         salt=seed + 7 * len(jobs), group=f"{cls}:{json.dumps(kw, sort_keys=True)}", expect=expect)
-            inv = INVS_S4 if cls == "s4" or kw.get("sn") == "HardS4Scripts" else INVS
+            inv = INVS_S4 if dev != "NoDev" and (cls == "s4" or kw.get("sn") == "HardS4Scripts") else INVS
             jobs.append((cfg(k=k, s=s, inv=inv, dev=dev, **kw), meta))
 
-    nh, no, nc, nco, ns4, nf = 21, 12, 8, 7, 5, 2
+    nh, no, nc, nco, ns4, nf = 21, 15, 8, 7, 6, 2
     if tier == "quick":
         for c in CONFIGS:                                           # every 2-request history, all configurations
             add("hard", 1, nh * no * nf, nreq=2, full=1, **c)
@@ -313,7 +316,8 @@ def simulation_jobs(tier, seed, dev="NoDev"):
     for j in range(n):
         c = CONFIGS[(seed + j) % len(CONFIGS)]
         meta = dict(cls="sim", salt=seed + j, group="sim", expect=None, simulate=f"num={per}", seed=seed * 1000 + j + 1, **c)
-        jobs.append((cfg(nreq=4, full=4, s1="HardS4Scripts", sn="HardS4Scripts", inv=INVS_S4, dev=dev, **c), meta))
+        jobs.append((cfg(nreq=4, full=4, s1="HardS4Scripts", sn="HardS4Scripts",
+                         inv=INVS_S4 if dev != "NoDev" else INVS, dev=dev, **c), meta))
     return jobs
 
 
@@ -321,23 +325,26 @@ def stage1_jobs(tier):
     small = dict(nreq=2, full=1, emit="FALSE")
     s4 = dict(nreq=3, full=1, s1="S4Scripts", emit="FALSE")
     jobs = [
-        ("coverage", cfg(nreq=2, full=1, s1="HardS4Scripts", o1="AllOps", emit="FALSE", inv=INVS_S4, maxsize=2), 1, True),
+        ("coverage", cfg(nreq=2, full=1, s1="HardS4Scripts", o1="AllOps", emit="FALSE", maxsize=2), 1, True),
         ("dev:NoProbe", cfg(dev="DevNoProbe", **small), 1, False),
         ("dev:ProbeEofOnly", cfg(dev="DevProbeEofOnly", **small), 1, False),
         ("dev:RawNotReady", cfg(dev="DevRawNotReady", nreq=2, full=1, emit="FALSE"), 1, False),
-        ("dev:NoCloseOnUnclean", cfg(dev="DevNoCloseOnUnclean", inv=INVS_S4, **s4), 1, False),
-        ("dev:NoDiscardOnError", cfg(dev="DevNoDiscardOnError", inv=INVS_S4, **s4), 1, False),
-        ("s4:as-is", cfg(**s4), 1, False),
-        ("s4:fix-ReleaseClosesUnread", cfg(dev="DevReleaseCloses", **s4), 1, False),
+        ("dev:NoCloseOnUnclean", cfg(dev="DevNoCloseOnUnclean", **s4), 1, False),
+        ("dev:NoDiscardOnError", cfg(dev="DevNoDiscardOnError", **s4), 1, False),
+        ("dev:ReleaseKeepsUnread", cfg(dev="DevReleaseKeeps", **s4), 1, False),
+        ("dev:AbandonedStreamLooksClean", cfg(dev="DevAbandoned", **s4), 1, False),
+        ("dev:Read1AskedIsRead", cfg(dev="DevRead1Asked", **s4), 1, False),
     ]
     return jobs
 
 
 EXPECT_S1 = {"dev:NoProbe": {"OnlyOwnBytes", "UncleanNeverReused"},
              "dev:ProbeEofOnly": {"OnlyOwnBytes", "UncleanNeverReused"}, "dev:RawNotReady": {"OnlyUrllib3Errors"},
-             "dev:NoCloseOnUnclean": {"OnlyOwnBytesButS4", "UncleanNeverReusedButS4"},
-             "dev:NoDiscardOnError": {"OnlyOwnBytesButS4", "UncleanNeverReusedButS4"},
-             "s4:as-is": {"OnlyOwnBytes", "UncleanNeverReused"}}
+             "dev:NoCloseOnUnclean": {"OnlyOwnBytes", "UncleanNeverReused"},
+             "dev:NoDiscardOnError": {"OnlyOwnBytes", "UncleanNeverReused"},
+             "dev:ReleaseKeepsUnread": {"OnlyOwnBytes", "UncleanNeverReused"},
+             "dev:AbandonedStreamLooksClean": {"OnlyOwnBytes", "UncleanNeverReused"},
+             "dev:Read1AskedIsRead": {"OnlyOwnBytes", "UncleanNeverReused"}}
 
 
 # ------------------------------------------------------------------------------ run
@@ -351,8 +358,9 @@ def run(rep):
                        "segmentation is one of: every raw read takes all pending bytes / exactly one unit",
                        "http.client's parsing of status lines and chunk sizes is trusted",
                        "stray bytes arriving after the next checkout are outside the statement and never generated"]
-    dev = "DevReleaseCloses" if release_closes_unread() else "NoDev"
-    rep.extra["model_variant"] = "release_conn discards unread connections" if dev != "NoDev" else "as-is (S4 open)"
+    dev = "NoDev" if release_closes_unread() else "DevReleaseKeeps"
+    rep.extra["model_variant"] = ("as-is: release_conn discards unread connections" if dev == "NoDev"
+                                  else "historical: release_conn pools unread connections (S4 open)")
     jobs = plan(rep.tier, rep.seed, dev) + simulation_jobs(rep.tier, rep.seed, dev)
     s1 = stage1_jobs(rep.tier)
     jobs_n = int(os.environ.get("VERIF_JOBS") or os.cpu_count() or 4)
@@ -371,8 +379,6 @@ def run(rep):
         if want is None and o["violated"]:
             raise tlc.MachineryError(f"stage 1: the Model violates {o['violated']} in run {o['name']} (spec inconsistent)")
         if want is not None and not (want & set(o["violated"])):
-            if o["name"] == "s4:as-is":
-                continue
             raise tlc.MachineryError(f"vacuity: deviation run {o['name']} did not violate {want} (got {o['violated']})")
         if o["coverage"] is not None:
             zero = [a for a, c in o["coverage"].items() if not c or c[1] == 0]
